@@ -606,6 +606,24 @@ def _simulate(fi: FunctionInfo, ops: List[tuple], path) -> List[Tuple[bool, str,
 MUTATORS = ["__init__", "append", "update", "remove", "pop", "group", "replace_group_leader"]
 
 
+def check_leader_position(ctx, rule: str):
+    """replace_group_leader renames a group *in place*: the new leader takes the position of the old one
+    (an item store / insert at that position).  Removing the old leader and adding the new one through
+    append / update / += puts the group at the end of the order: the partition is intact, the order
+    of the groups -- what carving and labels are built on -- is not."""
+    gl = ctx.repo.find_class("GroupedList")
+    fi = gl.methods.get("replace_group_leader")
+    if fi is None:
+        raise AnalysisError("GroupedList.replace_group_leader not found")
+    positional = [n for n in walk_no_nested(fi.node) if (isinstance(n, ast.Subscript) and isinstance(n.ctx, ast.Store) and unparse(n.value) == "self")
+                  or (isinstance(n, ast.Call) and isinstance(n.func, ast.Attribute) and n.func.attr == "insert" and unparse(n.func.value) in ("self", "super()"))]
+    moving = [n for n in walk_no_nested(fi.node) if isinstance(n, ast.Call) and isinstance(n.func, ast.Attribute) and n.func.attr in ("remove", "append", "update", "pop", "extend")
+              and unparse(n.func.value) in ("self", "super()")] + [n for n in walk_no_nested(fi.node) if isinstance(n, ast.AugAssign) and unparse(n.target) == "self"]
+    ok = bool(positional) or not moving
+    ctx.ob(rule, construct(fi, "the renamed group keeps its position in the order (item store / insert at the old leader's position)"), ok, loc(fi, moving[0] if moving and not ok else None),
+           "" if ok else f"the old leader is taken out and the new one added with `{short(moving[-1], 50)}`: the group moves to the end of the order")
+
+
 def check_comutation(ctx, rule: str):
     repo = ctx.repo
     gl = repo.find_class("GroupedList")
@@ -613,6 +631,7 @@ def check_comutation(ctx, rule: str):
 
     # a mutator that locates the leader itself must not take position 0 for 'not found' (the list would keep the old leader)
     check_position_truthiness(ctx, "R-position-truthiness", list(gl.methods.values()))
+    check_leader_position(ctx, "R-leader-position")
     for name in MUTATORS:
         fi = gl.methods.get(name)
         if fi is None:
